@@ -84,8 +84,8 @@ theorem applyRes_noIdle (cfg : Cfg) (pol : Policy) (step : Nat) (tickEv : Ev) (d
     simp only [applyRes]
     split
     · simp [List.any_append, h, isIdlePub]
-    · simp [List.any_append, h, isIdlePub]
-    · split
+    all_goals
+      split
       · split <;> simp [List.any_append, h, isIdlePub]
       · simp [List.any_append, h, isIdlePub]
   | addCollected buf ev =>
